@@ -93,6 +93,7 @@ type Clause struct {
 	Name     string // optional label
 	Known    string // optional known-finding tag
 	Internal bool   // ensures over locals of the body: checked, but not assumed at call sites
+	Assumed  string // non-empty: postcondition assumed at call sites and NOT checked in the body (reason); listed in evidence
 }
 
 type LoopSpec struct {
@@ -833,7 +834,7 @@ func (p *parser) textOf(a, b int) string {
 
 var clauseKeywords = map[string]bool{"requires": true, "ensures": true, "modifies": true, "decreases": true, "pure": true,
 	"mode": true, "props": true, "loop": true, "call": true, "trusted": true, "noovf": true, "invariant": true,
-	"allocates": true, "autoframe": true, "hint": true, "uses": true, "panics_if": true, "terminates": true, "opaque": true, "let": true, "mathints": true, "funcparam": true}
+	"allocates": true, "autoframe": true, "ensures_assumed": true, "hint": true, "uses": true, "panics_if": true, "terminates": true, "opaque": true, "let": true, "mathints": true, "funcparam": true}
 
 func (p *parser) atItemEnd() bool {
 	t := p.peek()
@@ -961,6 +962,18 @@ func (p *parser) parseFuncContract() (*FuncContract, error) {
 			if err != nil {
 				return nil, err
 			}
+			fc.Ensures = append(fc.Ensures, c)
+			curLoop = nil
+		case "ensures_assumed":
+			if p.peek().k != "str" {
+				return nil, p.errf("ensures_assumed needs a reason string")
+			}
+			reason := p.adv().s
+			c, err := p.parseClauseExpr("ensures")
+			if err != nil {
+				return nil, err
+			}
+			c.Assumed = reason
 			fc.Ensures = append(fc.Ensures, c)
 			curLoop = nil
 		case "panics_if":
